@@ -74,6 +74,7 @@ type BaseStore struct {
 
 	muCache   sync.RWMutex
 	muIndex   sync.RWMutex
+	muStatus  sync.Mutex
 	muJoining sync.Mutex
 	muWrite   sync.Mutex
 	sortFn    ipfslog.SortFn
@@ -978,7 +979,19 @@ func (b *BaseStore) appendAndPersist(ctx context.Context, oplog ipfslog.Log, dat
 	return e, nil
 }
 
+// The replication status is updated from several goroutines (a local write, the
+// store's main loop on replicator events, the join ending a replication, the
+// progress of a load): each update reads the current values and writes new ones,
+// so the updates are serialised, otherwise one of two concurrent updates is lost
+// and progress or maximum can be left below a value it already had.
 func (b *BaseStore) recalculateReplicationProgress() {
+	b.muStatus.Lock()
+	defer b.muStatus.Unlock()
+
+	b.recalculateReplicationProgressLocked()
+}
+
+func (b *BaseStore) recalculateReplicationProgressLocked() {
 	max := b.ReplicationStatus().GetMax()
 	if progress := b.ReplicationStatus().GetProgress() + 1; progress < max {
 		max = progress
@@ -992,6 +1005,13 @@ func (b *BaseStore) recalculateReplicationProgress() {
 }
 
 func (b *BaseStore) recalculateReplicationMax(max int) {
+	b.muStatus.Lock()
+	defer b.muStatus.Unlock()
+
+	b.recalculateReplicationMaxLocked(max)
+}
+
+func (b *BaseStore) recalculateReplicationMaxLocked(max int) {
 	if opLogLen := b.OpLog().Len(); opLogLen > max {
 		max = opLogLen
 	}
@@ -1004,8 +1024,11 @@ func (b *BaseStore) recalculateReplicationMax(max int) {
 }
 
 func (b *BaseStore) recalculateReplicationStatus(maxTotal int) {
-	b.recalculateReplicationMax(maxTotal)
-	b.recalculateReplicationProgress()
+	b.muStatus.Lock()
+	defer b.muStatus.Unlock()
+
+	b.recalculateReplicationMaxLocked(maxTotal)
+	b.recalculateReplicationProgressLocked()
 }
 
 func (b *BaseStore) updateIndex(ctx context.Context) error {
